@@ -411,6 +411,7 @@ type c19Sock struct {
 	handed      int // packets handed to the receiver so far
 	entryHanded int // value of handed at the receiver's latest ReadFrom entry
 	pushed      int
+	dead        bool // ReadFrom has returned a permanent error: the receiver goroutine exits and never comes back
 }
 
 func (s *c19Sock) ReadFrom(b []byte) (int, net.Addr, error) {
@@ -421,6 +422,8 @@ func (s *c19Sock) ReadFrom(b []byte) (int, net.Addr, error) {
 	w.cond.Broadcast()
 	for {
 		if !s.open {
+			s.dead = true
+			w.cond.Broadcast()
 			return 0, nil, net.ErrClosed
 		}
 		if len(s.inbox) > 0 {
@@ -551,7 +554,11 @@ func (w *c19World) snap(u *udpHopPacketConn, quiescent bool) {
 }
 
 // inject one datagram (or a read timeout) into the socket currently playing `role`; returns after the
-// receiver has taken it and come back for the next one (so queue order = order of the "A" log entries)
+// receiver has taken it and come back for the next one (so queue order = order of the "A" log entries).
+// The "A"/"T" entry is made when the receiver takes the datagram, i.e. before it offers it to recvQueue; if the
+// socket is closed in between (a hop or Close racing the arrival) the receiver still delivers what it holds, so the
+// injector keeps waiting until the receiver is back in ReadFrom (or has exited) and does not go by the socket's state:
+// otherwise the next injected datagram could overtake this one on its way into the queue.
 func (w *c19World) inject(u *udpHopPacketConn, role string, timeout bool) {
 	w.injMu.Lock()
 	defer w.injMu.Unlock()
@@ -585,7 +592,7 @@ func (w *c19World) inject(u *udpHopPacketConn, role string, timeout bool) {
 	s.pushed++
 	mine := s.pushed
 	w.cond.Broadcast()
-	for s.open && s.entryHanded < mine {
+	for !s.dead && s.entryHanded < mine {
 		w.cond.Wait()
 	}
 }
